@@ -212,6 +212,26 @@ def k_sec_header(ctx, service, subservice, msg_counter, dest_id, time_ref, ts):
         ctx.check("tm.sec_header", h.header_size == 7 + len(ts_b), "header_size", "", case, observed=h.header_size)
 
 
+def poison_tm(r):
+    """Operations on another, invalid telemetry packet that fail part-way (fault sequence)."""
+    tmm, sp, _, Service17Tm = _imp()
+    outcomes = []
+    for mk in (lambda: tmm.PusTm(service=r.choice((256, 300)), subservice=1, timestamp=b"", apid=1),
+               lambda: tmm.PusTm(service=17, subservice=2, timestamp=r.choice((None, "stamp", 7)), apid=1),
+               lambda: tmm.PusTm(service=17, subservice=2, timestamp=b"", source_data=r.choice(("text", 5, None)), apid=1),
+               lambda: tmm.PusTm(service=17, subservice=2, timestamp=b"", apid=1, message_counter=r.choice((65536, -1)))):
+        ok, t = attempt(mk)
+        if not ok:
+            outcomes.append("ctor:" + type(t).__name__)
+            continue
+        for name in r.sample(("calc_crc", "pack", "to_space_packet"), 2):
+            ok, e = attempt(getattr(t, name))
+            outcomes.append(name + (":ok" if ok else ":" + type(e).__name__))
+    ok, e = attempt(tmm.PusTm.unpack, r.randbytes(r.randrange(0, 24)), r.choice((0, 7)))
+    outcomes.append("unpack" + (":ok" if ok else ":" + type(e).__name__))
+    return outcomes
+
+
 def k_view_history(ctx, seed):
     """After any mix of pack / calc_crc / to_space_packet / unpack and changes through the public setters, pack() and the
     space-packet view both equal the model of the current field values (also through the service-17 wrapper)."""
@@ -237,10 +257,17 @@ def k_view_history(ctx, seed):
             t = tmm.PusTm.unpack(bytes(t.pack()), len(ts))
     ops = []
     for step in range(r.randrange(2, 9)):
-        op = r.choice(("pack", "calc_crc", "view", "apid", "tm_data", "pack_cached", "seq_count") + (("wrapper_pack", "wrapper_pack") if wrapper is not None else ()))
+        op = r.choice(("pack", "calc_crc", "view", "apid", "tm_data", "pack_cached", "seq_count", "poison", "calc_crc_cached") + (("wrapper_pack", "wrapper_pack") if wrapper is not None else ()))
         ops.append(op)
         if op == "pack":
             got = bytes(t.pack())
+        elif op == "poison":
+            for o in poison_tm(r):
+                ctx.table("poison_outcomes", o)
+            continue
+        elif op == "calc_crc_cached":
+            t.calc_crc()
+            got = bytes(t.pack(recalc_crc=False))
         elif op == "wrapper_pack":
             got = bytes(wrapper.pack())
         elif op == "seq_count":
@@ -272,6 +299,26 @@ def k_view_history(ctx, seed):
         if not ctx.check("tm.view_history", got == want, f"{what}_differs_from_current_fields", _octet_diff(got, want, len(ts)) + ("/after_field_change" if changed else ""),
                          dict(case, ops=ops), observed=got, expected=want):
             return
+
+
+def craft_tm_crc_boundary(rng, where, target, ts, n):
+    """Field values of a telemetry packet whose CRC register equals `target` after the primary header (where='primary') or
+    after primary + secondary header incl. the timestamp (where='secondary')."""
+    from spverif.ref.crc import find16
+    from spverif.ref import ccsds as H
+    for _ in range(64):
+        apid, svc, sub, tref, mc, count = rng.getrandbits(11), rng.getrandbits(8), rng.getrandbits(8), rng.getrandbits(4), rng.getrandbits(16), rng.getrandbits(14)
+        length = 7 + len(ts) + n + 2 - 1
+        if where == "primary":
+            x = find16(b"", lambda x: H.encode_header(0, 0, 1, apid, 3, x, length), target, 16384)
+            if x is not None:
+                return apid, x, svc, sub, mc, rng.getrandbits(16), tref
+        else:
+            head = H.encode_header(0, 0, 1, apid, 3, count, length) + bytes([0x20 | tref, svc, sub]) + mc.to_bytes(2, "big")
+            x = find16(head, lambda x: x.to_bytes(2, "big") + ts, target)
+            if x is not None:
+                return apid, count, svc, sub, mc, x, tref
+    return None
 
 
 def k_tm_wrong_type(ctx, apid, count, ts, data):
@@ -375,6 +422,16 @@ def run(ctx):
              model_fed=r.random() < 0.5)
     for j in range(ctx.n(1500, 150_000)):
         k_view_history(ctx, ctx.seed * 1_000_003 + ctx.shard[0] * 100_003 + j)
+    # telemetry whose running CRC is exactly 0x0000 / 0xFFFF after the primary header, or after both headers
+    for where in ("primary", "secondary"):
+        for target in (0x0000, 0xFFFF):
+            for tsl, n in ((0, 0), (7, 3), (16, 9)):
+                ts = ts_of(tsl)
+                f = craft_tm_crc_boundary(r, where, target, ts, n)
+                if f is not None:
+                    ctx.table("crc_register_at_boundary", f"{where}/{target:04x}")
+                    for route in ("ctor", "composite"):
+                        k_tm(ctx, route, f[0], f[1], f[2], f[3], f[4], f[5], f[6], 0, ts, rand_bytes(r, n), model_fed=(n == 3))
     for _ in range(ctx.n(120, 6000)):
         k_tm(ctx, r.choice(("ctor", "composite")), rand_uint(r, 11), rand_uint(r, 14), 17, rand_uint(r, 8), rand_uint(r, 16), rand_uint(r, 16), rand_uint(r, 4), rand_uint(r, 3),
              ts_of(r.choice(TS_LENS)), rand_bytes(r, r.randrange(0, 20)), model_fed=r.random() < 0.5)
@@ -390,6 +447,7 @@ def run(ctx):
 
 
 def conclude(ctx):
+    ctx.require(len(ctx.tables.get("crc_register_at_boundary", {})) == 4, "crafted CRC-boundary telemetry packets missing")
     ctx.require(ctx.extra.get("hostile_caller_scribbled_pack_results", 0) > 0, "hostile-caller sanitizer scribbled no pack() result")
     for route in ROUTES:
         for ts in TS_LENS:
